@@ -41,6 +41,113 @@ func checkC17(w *World, r *Report) {
 		r.Check(ok, "R17.3", "list.Validate validates the key token", fd.Pos(), "top-level `if err := key.Validate(ctx, path, {p[0]}); err != nil { return err }`", "the key value is validated only on some paths (e.g. only when the path ends on the entry): a corrupted key in a longer path is accepted")
 	})
 
+	r.Rule("R17.8", "choices and cases are transparent in exactly one way: the child tables are built by addChildrenWithActionChain at three reviewed places — every ordinary node (node.addChildren) lifts the children of a choice's cases and leaves the choice out, a choice lifts the children of its cases, a case lifts the children of nested choices — each with the kind tests in that order", 3)
+	r.guard("R17.8", func() {
+		sp := w.SSAPkg("schema")
+		want := map[string]string{
+			"node.addChildren": "includeChildrenOf(choiceNode,caseNode);addToChildrenExcluding(choiceNode)",
+			"NewChoice":        "includeChildrenOf(caseNode,choiceNode);addToChildrenExcluding(caseNode)",
+			"NewCase":          "includeChildrenOf(choiceNode,caseNode);addToChildrenExcluding(choiceNode)",
+		}
+		seen := map[string]bool{}
+		for _, f := range allFuncs(sp) {
+			if isTestFile(w, f.Pos()) {
+				continue
+			}
+			for _, b := range f.Blocks {
+				for _, in := range b.Instrs {
+					c, ok := in.(*ssa.Call)
+					if !ok || c.Call.StaticCallee() == nil || nm(c.Call.StaticCallee()) != "addChildrenWithActionChain" {
+						continue
+					}
+					key := strings.TrimPrefix(strings.TrimPrefix(funcKey(f), "(*schema."), "schema.")
+					key = strings.Replace(key, ").", ".", 1)
+					// the actions: calls of the action makers in this function, in order, with the kind tests they get
+					var acts []string
+					for _, b2 := range f.Blocks {
+						for _, in2 := range b2.Instrs {
+							mk, ok := in2.(*ssa.Call)
+							if !ok || mk.Call.StaticCallee() == nil {
+								continue
+							}
+							name := nm(mk.Call.StaticCallee())
+							if name != "includeChildrenOf" && name != "addToChildrenExcluding" {
+								continue
+							}
+							var args []string
+							for _, a := range mk.Call.Args {
+								if ct, ok := a.(*ssa.ChangeType); ok {
+									a = ct.X
+								}
+								if fn, ok := a.(*ssa.Function); ok {
+									args = append(args, nm(fn))
+								} else {
+									args = append(args, "?")
+								}
+							}
+							acts = append(acts, name+"("+strings.Join(args, ",")+")")
+						}
+					}
+					got := strings.Join(acts, ";")
+					exp, known := want[key]
+					seen[key] = true
+					if !known {
+						r.Fail("R17.8", key+" builds a child table", c.Pos(), "a child table is built with its own action chain ("+got+") at a place that is not one of the three reviewed ones: which nodes a path may name below it is decided differently from everywhere else")
+						continue
+					}
+					r.Check(got == exp, "R17.8", key+" builds its child table", c.Pos(), exp, "the action chain is "+got+", reviewed as "+exp+": the children of a choice's cases are not lifted into the enclosing node (or the choice itself is kept), so paths through the choice are rejected or a choice becomes nameable")
+				}
+			}
+		}
+		for k := range want {
+			if !seen[k] {
+				r.Fail("R17.8", k+" builds its child table", token.NoPos, "reviewed call of addChildrenWithActionChain no longer found")
+			}
+		}
+	})
+
+	r.Rule("R17.9", "a path that goes on after a leaf or leaf-list value is rejected at the first token too many: leaf.Validate and leafList.Validate name p[1] (the first token after the value) in the path-invalid error, not a later one", 2)
+	r.guard("R17.9", func() {
+		for _, k := range []string{"leaf", "leafList"} {
+			f := w.SSAFunc(w.Method("schema", k, "Validate"))
+			if f == nil || len(f.Params) != 4 {
+				panic(undecided{"schema." + k + ".Validate"})
+			}
+			pP := ssa.Value(f.Params[3])
+			n := 0
+			why := ""
+			for _, b := range f.Blocks {
+				for _, in := range b.Instrs {
+					c, ok := in.(*ssa.Call)
+					if !ok || c.Call.StaticCallee() == nil || nm(c.Call.StaticCallee()) != "NewPathInvalidError" || len(c.Call.Args) != 2 {
+						continue
+					}
+					n++
+					good := false
+					if ld, ok := c.Call.Args[1].(*ssa.UnOp); ok && ld.Op == token.MUL {
+						if ia, ok := ld.X.(*ssa.IndexAddr); ok {
+							idx, isK := intConstOf(ia.Index)
+							switch x := ia.X.(type) {
+							case *ssa.Parameter:
+								good = isK && idx == 1 && ia.X == pP
+							case *ssa.Slice:
+								lo, isLo := intConstOf(x.Low)
+								good = isK && idx == 0 && x.X == pP && isLo && lo == 1 && x.High == nil
+							}
+						}
+					}
+					if !good {
+						why = "the element named is `" + c.Call.Args[1].String() + "`"
+					}
+				}
+			}
+			if n == 0 {
+				panic(undecided{k + ".Validate: path-invalid error"})
+			}
+			r.Check(why == "", "R17.9", k+".Validate names the first token too many", f.Pos(), "NewPathInvalidError(path, p[1])", why+", not the first token after the value: for a path two or more tokens too long the error points at the wrong element")
+		}
+	})
+
 	r.Rule("R17.5", "an error names its element whenever there is one: each error constructor in schema/errors.go that sets Path from its path argument does so unconditionally or under a guard that is true for every non-empty path", 6)
 	r.guard("R17.5", func() {
 		sp := w.Pkg("schema")
